@@ -141,9 +141,26 @@ class _Loc:
         return m, col
 
     def pyvc_getitem(self, I, key, node):
+        if isinstance(key, SliceV) and key.step is None:
+            return self._label_slice(I, key)
         _use("DataFrame.loc[mask, col]")
         m, col = self._key(key)
         return SeriesV(lnp.arr_getitem(I, lnp.as_arr(I, self.frame.cols[col]), m, node), None, col)
+
+    def _label_slice(self, I, key):
+        """df.loc[beg:end] on a frame whose index is the consecutive integers first, first+1, ... (end-INCLUSIVE label
+        slice of a monotonic integer index: the rows whose label lies in [beg, end]; absent labels are allowed)"""
+        _use("DataFrame.loc[beg:end] (consecutive integer index)")
+        fr = self.frame
+        first = index_first(fr.index)
+        if first is None:
+            raise Unsupported(".loc[beg:end] on an index that is not known to be consecutive integers")
+        n = fr.n
+        clamp = lambda x: z3.If(x < 0, z3.IntVal(0), z3.If(x > n, n, x))   # noqa: E731
+        lo = z3.IntVal(0) if key.start is None else clamp(to_term(key.start) - first)
+        hi = n if key.stop is None else clamp(to_term(key.stop) - first + 1)
+        hi = z3.If(hi < lo, lo, hi)
+        return frame_rows(I, fr, lo, hi)
 
     def pyvc_setitem(self, I, key, val):
         _use("DataFrame.loc[mask, col] = values")
@@ -165,9 +182,65 @@ class _ILoc:
             return r
         if isinstance(o, DataFrameV):
             if isinstance(key, SliceV):
+                if o.index is not None and key.step is None:
+                    lo, hi = I.slice_bounds(key, o.n)
+                    return frame_rows(I, o, lo, z3.If(hi < lo, lo, hi))
                 cols = {c: lnp.arr_getitem(I, lnp.as_arr(I, a), key, node) for c, a in o.cols.items()}
                 return DataFrameV(cols, None)
+            if isinstance(key, SeriesV):
+                key = key.values
+            if isinstance(key, Arr) and key.kind == "int":
+                # positional take: position p in [-n, n) (negative positions count from the end), IndexError otherwise
+                _use("DataFrame.iloc[integer array]")
+                n = o.n
+                ordn = I.path.ordinal("iloc-take")
+                kk = z3.Int(I.path.fresh_name("ilk"))
+                I.path.oblige("bounds", f"iloc-positions#{ordn}",
+                              z3.ForAll([kk], z3.Implies(z3.And(kk >= 0, kk < key.n), z3.And(key.at(kk) >= -n, key.at(kk) < n))),
+                              getattr(node, "lineno", None))
+                pos = lambda k, key=key, n=n: z3.If(key.at(k) < 0, key.at(k) + n, key.at(k))   # noqa: E731
+                cols = {}
+                for c, a in o.cols.items():
+                    a = lnp.as_arr(I, a)
+                    cols[c] = Arr(key.n, (lambda k, a=a: a.at(pos(k))), a.kind, a.dtype)
+                idx = None
+                if o.index is not None:
+                    ia = o.index
+                    idx = Arr(key.n, (lambda k, ia=ia: ia.at(pos(k))), "int")
+                else:
+                    idx = Arr(key.n, pos, "int")
+                return DataFrameV(cols, idx)
         raise Unsupported("iloc on " + type(o).__name__)
+
+
+def index_first(index):
+    """the label of row 0 when the index is known to be consecutive integers (None = RangeIndex from 0)"""
+    if index is None:
+        return z3.IntVal(0)
+    return getattr(index, "first", None)
+
+
+def offset_index(n, first):
+    """the index first, first+1, ..., first+n-1"""
+    first = to_term(first)
+    ix = Arr(n, lambda k, f=first: f + k, "int")
+    ix.first = first
+    return ix
+
+
+def frame_rows(I, fr, lo, hi):
+    """rows [lo, hi) of a frame (0 <= lo <= hi <= n), index labels kept"""
+    cols = {}
+    for c, a in fr.cols.items():
+        a = lnp.as_arr(I, a)
+        cols[c] = Arr(hi - lo, (lambda k, a=a, lo=lo: a.at(lo + k)), a.kind, a.dtype)
+    first = index_first(fr.index)
+    if first is not None:
+        idx = offset_index(hi - lo, first + lo)
+    else:
+        ia = fr.index
+        idx = Arr(hi - lo, (lambda k, ia=ia, lo=lo: ia.at(lo + k)), "int")
+    return DataFrameV(cols, idx)
 
 
 def series_unique(I, a: Arr):
@@ -234,6 +307,17 @@ class DataFrameV:
     def pyvc_contains(self, I, item):
         return item in self.cols
 
+    def pyvc_setattr(self, I, attr, val):
+        if attr == "index":
+            _use("DataFrame.index = labels")
+            if isinstance(val, SeriesV):
+                val = val.values
+            if val is not None and hasattr(val, "n"):
+                I.path.oblige("shape", f"index-length#{I.path.ordinal('dfindex')}", val.n == self.n)
+            self.index = val
+            return
+        raise Unsupported(f"DataFrame.{attr} = ...")
+
     def pyvc_getattr(self, I, attr, node):
         if attr in self.cols and attr not in ("index", "columns", "values"):
             return SeriesV(self.cols[attr], self.index, attr)
@@ -261,10 +345,31 @@ class DataFrameV:
             def rename(I, columns=None, **kw):
                 if columns is None:
                     raise Unsupported("DataFrame.rename without columns=")
+                if not isinstance(columns, dict):      # a function of the column name
+                    new = {}
+                    for c, a in self.cols.items():
+                        c2 = I.call(columns, [c], {})
+                        if not isinstance(c2, str) or c2 in new:
+                            raise Unsupported("DataFrame.rename(columns=function) with a non-concrete or clashing name")
+                        new[c2] = a
+                    return DataFrameV(new, self.index, self.runs)
                 return DataFrameV({columns.get(c, c): a for c, a in self.cols.items()}, self.index, self.runs)
             return M("DataFrame.rename", rename)
         if attr == "index":
             return self.index if self.index is not None else lnp.np_arange(I, self.n)
+        if attr == "drop":
+            def drop(I, labels=None, axis=0, columns=None, **kw):
+                _use("DataFrame.drop(columns)")
+                if columns is None and axis in (1, "columns"):
+                    columns = labels
+                if columns is None:
+                    raise Unsupported("DataFrame.drop of rows")
+                columns = [columns] if isinstance(columns, str) else list(columns)
+                for c in columns:
+                    if c not in self.cols:
+                        raise PyRaise(ExcVal("KeyError", (c,)))
+                return DataFrameV({c: a for c, a in self.cols.items() if c not in columns}, self.index, None)
+            return M("DataFrame.drop", drop)
         if attr == "head":
             return M("DataFrame.head", lambda I, n=5: self)
         if attr == "to_csv":
@@ -425,8 +530,36 @@ def pd_Series(I, data=None, index=None, **kw):
     return SeriesV(data, index, kw.get("name"))
 
 
+def pd_concat(I, objs, axis=0, **kw):
+    """pd.concat(frames, axis=1) of frames that all carry the default RangeIndex: columns side by side, rows aligned by
+    position; the lengths must agree (with different lengths pandas pads with NaN rows: an obligation here)"""
+    if axis not in (1, "columns"):
+        raise Unsupported("pd.concat along rows has no assumed contract here")
+    _use("pd.concat(axis=1) of RangeIndex frames")
+    objs = list(objs)
+    cols, n0 = {}, None
+    for o in objs:
+        if isinstance(o, SeriesV):
+            o = DataFrameV({o.name: o.values}, o.index)
+        if not isinstance(o, DataFrameV):
+            raise Unsupported("pd.concat of " + type(o).__name__)
+        if o.index is not None:
+            raise Unsupported("pd.concat(axis=1) of frames with a non-default index (label alignment is not modelled)")
+        if o.cols:
+            if n0 is None:
+                n0 = o.n
+            else:
+                I.path.oblige("shape", f"concat-lengths#{I.path.ordinal('concat1')}", o.n == n0)
+        for c, a in o.cols.items():
+            if c in cols:
+                raise Unsupported("pd.concat(axis=1) producing a duplicate column name")
+            cols[c] = a
+    return DataFrameV(cols, None)
+
+
 def install(engine):
     pd = LibNS("pandas", {
+        "concat": LibFunc("pd.concat", pd_concat),
         "DataFrame": LibFunc("pd.DataFrame", pd_DataFrame),
         "Series": LibFunc("pd.Series", pd_Series),
         "CategoricalDtype": Opaque("pd.CategoricalDtype"),
